@@ -90,6 +90,13 @@ def if_(*arms): return {"op": "if", "arms": [{"cond": c, "body": list(b)} for c,
 def fault(kind): return {"op": "fault", "kind": kind}
 
 
+def foreach(array, vals, item, body):
+    """<foreach array=.. item=..>: the array is a constant declared at <scxml> (Chart.arrays), its elements are carried
+    in the op so that the specification needs no look-up; item is a declared integer variable; no index (its base is
+    the datamodel's business: 1 in Lua, 0 in Promela)"""
+    return {"op": "foreach", "array": array, "vals": [int(x) for x in vals], "item": item, "body": list(body)}
+
+
 def ops_need_dm(ops):
     for op in ops:
         o = op["op"]
@@ -102,6 +109,8 @@ def ops_need_dm(ops):
                 if not bexpr_uses_only_in(arm["cond"]) or ops_need_dm(arm["body"]):
                     return True
         if o == "fault" and op["kind"] not in ("sendtype", "sendtarget"):
+            return True
+        if o == "foreach":
             return True
     return False
 
@@ -176,6 +185,7 @@ class Chart:
         self.vars = list(vars_)   # variable names; <data> placement via Node.data
         self.cid = cid
         self.tags = list(tags)
+        self.arrays = {}          # name -> list of ints: constant arrays declared at <scxml>, iterated by <foreach>
         self.states = []
         self.trans = []
         self._number()
@@ -285,6 +295,7 @@ class Chart:
             })
         return {"id": self.cid, "binding": self.binding, "vars": self.vars,
                 "states": states, "trans": trans, "alldata": alldata,
+                "arrays": [{"n": k, "v": list(v)} for k, v in sorted(self.arrays.items())],
                 "tags": self.tags}
 
     def to_raw_value(self):
@@ -364,6 +375,10 @@ class Chart:
                     out.append('%s<send event=%s%s/>' % (p, quoteattr(".".join(op["ev"])), idattr))
             elif o == "cancel":
                 out.append('%s<cancel sendid=%s/>' % (p, quoteattr(op["sid"])))
+            elif o == "foreach":
+                out.append('%s<foreach array="%s" item="%s">' % (p, op["array"], op["item"]))
+                self._render_ops(op["body"], out, ind + 1)
+                out.append('%s</foreach>' % p)
             elif o == "assign":
                 out.append('%s<assign location=%s expr=%s/>' % (p, quoteattr(op["var"]),
                                                                  quoteattr(render_iexpr(op["e"], dm))))
@@ -438,8 +453,14 @@ class Chart:
         if n.initial is not None:
             a += ' initial="%s"' % " ".join(self.sid(self.resolve(x)) for x in n.initial)
         out.append("%s<%s%s>" % (p, n.kind, a))
-        if n.data:
+        arrays = self.arrays if (n.kind == "scxml" and dm != "null") else {}
+        if n.data or arrays:
             out.append("%s  <datamodel>" % p)
+            for an, av in sorted(arrays.items()):
+                if dm == "promela":
+                    out.append('%s    <data id="%s" type="int[%d]">[%s]</data>' % (p, an, len(av), ",".join(str(x) for x in av)))
+                else:
+                    out.append('%s    <data id="%s" expr="{%s}"/>' % (p, an, ",".join(str(x) for x in av)))
             for v, e in n.data:
                 e = self._fix_expr(e)
                 if dm == "promela":
